@@ -89,7 +89,28 @@ def loop_of(f, bb, value_syms=()):
     return best
 
 
-def search_guard(f, bb, wit_sym):
+def _hash_of_vkey(P, f, o):
+    """Is the value a hash of `<x>.vkey`?  -> the symbolic witness <x> (in f), or None.  Crate helpers such as
+    `fn vkey_hash(w: &VKeyWitness) -> Hash<28> { Hasher::<224>::hash(&w.vkey) }` are looked into."""
+    HASH = r"Hasher::hash$|Hasher::<\d+>::hash$|::hash$"
+    for n in sym_walk(o):
+        if n[0] != "call":
+            continue
+        if re.search(HASH, strip_generics(n[1])):
+            vk = [s for s in sym_walk(n) if s[0] == "field" and s[2] == "vkey"]
+            if vk:
+                return vk[0][1]
+        g = P.fns.get(n[1]) if P is not None else None
+        if g is not None and g.crate == f.crate and g.kind != "Closure" and g.argc >= 1 and "Hash<28>" in g.local_ty(0) and n[2]:
+            r = g.sym_local(0)
+            inner = [s for s in sym_walk(r) if s[0] == "call" and re.search(HASH, strip_generics(s[1]))]
+            vk = [s for s in sym_walk(r) if s[0] == "field" and s[2] == "vkey" and strip(s[1])[0] == "param" and strip(s[1])[1] == 1]
+            if inner and vk:
+                return n[2][0]
+    return None
+
+
+def search_guard(f, bb, wit_sym, P=None):
     """Is the call at bb on the equal side of a comparison `hash(<witness>.vkey) == <Hash<28> parameter>`?
     -> (guarded?, same-witness? | None when not comparable, text)"""
     dom = f.dominators().get(bb, ())
@@ -113,14 +134,17 @@ def search_guard(f, bb, wit_sym):
                 neg = not neg
         if ops is None:
             continue
-        key_side = hash_side = None
+        key_side = None
+        hashed = None
         for o in ops:
             so = strip(o)
             if so[0] == "param" and "Hash<28>" in f.local_ty(so[1]):
                 key_side = so
-            elif any(s[0] == "call" and re.search(r"Hasher::hash$|Hasher::<\d+>::hash$|::hash$", strip_generics(s[1])) for s in sym_walk(o)):
-                hash_side = o
-        if key_side is None or hash_side is None:
+            else:
+                w = _hash_of_vkey(P, f, o)
+                if w is not None:
+                    hashed = w
+        if key_side is None or hashed is None:
             continue
         # the call must sit on the equal side
         zero = [b for v, b in t["ts"] if int(v) == 0]
@@ -131,9 +155,8 @@ def search_guard(f, bb, wit_sym):
         if eq_t is None or not (eq_t == bb or (eq_t in dom and f.pred(eq_t) == [sb])):
             continue
         same = None
-        vk = [s for s in sym_walk(hash_side) if s[0] == "field" and s[2] == "vkey"]
-        if vk and wit_sym is not None:
-            same = sym_str(strip(vk[0][1]), 2000) == sym_str(strip(wit_sym), 2000)
+        if wit_sym is not None:
+            same = sym_str(strip(hashed), 2000) == sym_str(strip(wit_sym), 2000)
         return True, same, sym_str(c, 200)
     return False, None, None
 
@@ -312,6 +335,8 @@ def leaves(f, sym, depth=0):
         if not found:
             out.add(("local", (f.local_name(l) or str(l),)))
         return out
+    if root[0] == "fnconst":
+        return out                                         # a function passed as a value (`.map(PublicKey::from)`) is not data
     if root[0] in ("const", "constsym", "repeat", "agg"):
         if root[0] == "agg":
             for a in root[3]:
@@ -341,11 +366,14 @@ def analyse_era(res, P, M, era, spec):
     res.floor("verify_signature call sites:%s" % era, len(direct_sites), 1)
 
     done = set()
-    work = list(sources.values())
+    # work items: (Fn, bb of the call carrying a verdict, description, witness sym, fact that means "a verification FAILED")
+    #   the fact is a dict for bool_flow: {dest: False} for verify_signature itself and for all(positive predicate),
+    #   {dest: True} for any(negated predicate), {("some", dest): False} for Option::map(positive predicate)
+    work = [(F, bb, what, wit, None) for (F, bb, what, wit) in sources.values()]
     n_tests = 0
-    sites_of = {}                      # fn path -> [(Fn, bb, dest local)]
+    sites_of = {}                      # fn path -> [(Fn, bb, fail fact)]
     while work:
-        F, bb, what, wit = work.pop()
+        F, bb, what, wit, fail = work.pop()
         if (F.path, bb) in done:
             continue
         done.add((F.path, bb))
@@ -354,44 +382,72 @@ def analyse_era(res, P, M, era, spec):
         t = F.blocks[bb]["term"]
         d = t["dest"]
         nxt = t.get("t")
-        returned = isinstance(d, int) and d in ex.rp and F.local_ty(0) == "bool"
         if not isinstance(d, int) or nxt is None:
             res.violation("verdict-unused:%s" % fkey, "the boolean verdict of %s in %s is stored somewhere the rule cannot follow" % (what, F.path), where=where(F, bb), rule="R-CDEP")
             continue
-        sites_of.setdefault(F.path, []).append((F, bb, d))
-        if not returned:
+        if fail is None:
+            fail = {d: False}
+        good_fact = {k: (not v) for k, v in fail.items()}
+        sites_of.setdefault(F.path, []).append((F, bb, fail))
+        is_pred = F.local_ty(0) == "bool"
+        if is_pred:
+            # a predicate (closure or function returning bool): which answer does it give when the verification failed?
+            rv = x_pipe.bool_flow(F, nxt, 0, fail, stop_at_reject=False)["ret_vals"]
+            polarity = "pos" if rv == {False} else "neg" if rv == {True} else None
+            if polarity is None:
+                res.violation("polarity:%s" % fkey, "in %s the answer of the predicate does not depend on %s in a way the rule can read (answers when it failed: %s)"
+                              % (F.path, what, sorted(map(str, rv))), where=where(F, bb), rule="R-CDEP")
+                continue
             n_tests += 1
-            # (c) polarity: with the verdict `false` every path must end in a rejection (boolean temporaries are followed)
-            bad = x_pipe.bool_flow(F, nxt, 0, {d: False})
-            if bad["ok"] is None and not bad["ret"]:
-                res.ok("polarity:%s" % fkey, "R-CDEP", "a false verdict of %s always ends in an error return (%s)" % (what, where(F, bb)))
-            else:
-                at = where(F, bad["ok"][0]) if bad["ok"] else where(F, bb)
-                res.violation("polarity:%s" % fkey, "in %s a transaction can be accepted although %s returned false (accepting exit at %s): "
-                              "the error return is not control dependent on the failed verification" % (F.path, what, at), where=where(F, bb), rule="R-CDEP")
-            # (b) no Ok from inside the loop on the verified side, unless this is a search for one key
-            lp = loop_of(F, bb, (wit,))
-            if lp is not None:
-                scc, heads = lp
-                good = x_pipe.bool_flow(F, nxt, 0, {d: True}, avoid=heads)
-                if good["ok"] is not None:
-                    guarded, same, txt = search_guard(F, bb, wit)
-                    if guarded:
-                        res.ok("forall:%s" % fkey, "R-FORALL", "Ok inside the loop is the success of a search for one key hash (%s)" % txt)
-                        if same is True:
-                            res.ok("own-key:%s" % fkey, "R-PROV", "the hash compared with the wanted key is the hash of the vkey of the witness that is verified")
-                        elif same is False:
-                            res.violation("own-key:%s" % fkey, "in %s the key hash compared with the wanted key is not the hash of the vkey of the witness whose signature is verified" % F.path,
-                                          where=where(F, bb), rule="R-PROV")
-                        else:
-                            res.count("clauses not decided: own-key (hash test and verification not comparable)")
+            res.ok("polarity:%s" % fkey, "R-CDEP", "predicate answers %s whenever %s failed" % ("false" if polarity == "pos" else "true", what))
+            if F.kind == "Closure":
+                par = P.fns.get(F.b.get("parent") or "")
+                placed = False
+                for abi, l, h, agg in (closure_aggs(par, P) if par is not None else []):
+                    if h is not F:
+                        continue
+                    placed = True
+                    fb, chain = consumer_of(par, l)
+                    last = chain[-1] if chain else None
+                    before = chain[:-1]
+                    early = [c for c in before if c in EARLY_CONSUMERS]
+                    if fb is None:
+                        res.violation("forall:%s" % fkey, "the closure that verifies signatures in %s is never consumed" % par.path, where=where(par, abi), rule="R-LAZY")
+                        continue
+                    dty = par.local_ty(pl_local(par.blocks[fb]["term"]["dest"]))
+                    if early:
+                        res.violation("forall:%s" % fkey, "in %s the closure that verifies signatures is consumed through %s, which stops at / skips elements: not every witness is verified"
+                                      % (par.path, ".".join(chain)), where=where(par, fb), rule="R-FORALL")
+                    elif last == "all" and polarity == "pos":
+                        res.ok("forall:%s" % fkey, "R-FORALL", "verifying predicate consumed by %s" % ".".join(chain))
+                        work.append((par, fb, "all(verify_signature)", None, {pl_local(par.blocks[fb]["term"]["dest"]): False}))
+                    elif last == "any" and polarity == "neg":
+                        res.ok("forall:%s" % fkey, "R-FORALL", "negated verifying predicate consumed by %s (any failure is found)" % ".".join(chain))
+                        work.append((par, fb, "any(!verify_signature)", None, {pl_local(par.blocks[fb]["term"]["dest"]): True}))
+                    elif last == "map" and dty.startswith("core::option::Option<bool>"):
+                        # Option::map over one selected witness: the verdict travels inside the Option
+                        dl = pl_local(par.blocks[fb]["term"]["dest"])
+                        work.append((par, fb, "Option::map(verify_signature)", None, {("some", dl): (polarity == "neg"), dl: True}))
                     else:
-                        res.violation("forall:%s" % fkey, "%s returns Ok from inside the loop as soon as one witness verifies (exit at %s): the remaining vkey witnesses are "
-                                      "never checked, so a transaction carrying an invalid signature after a valid one is accepted" % (F.path, where(F, good["ok"][0])),
-                                      where=where(F, bb), rule="R-FORALL")
-                else:
-                    res.ok("forall:%s" % fkey, "R-FORALL", "no Ok exit is reachable from the verified side without re-entering the loop head")
-        if not returned and F.kind == "Closure" and what == "verify_signature":
+                        res.violation("forall:%s" % fkey, "in %s the closure that verifies signatures is consumed by %s, which stops at / skips elements or ignores the verdict: "
+                                      "not every witness is verified" % (par.path, ".".join(chain)), where=where(par, fb), rule="R-FORALL")
+                if not placed:
+                    res.violation("verdict-unused:%s" % fkey, "cannot find where the verifying closure %s is used" % F.path, where=where(F, bb), rule="R-CDEP")
+            else:
+                for G, bi, tt in callers(CF, F):
+                    gd = pl_local(G.blocks[bi]["term"]["dest"])
+                    work.append((G, bi, "%s(verify_signature)" % F.name, G.sym_operand(tt["args"][0]) if tt["args"] else None, {gd: (polarity == "neg")}))
+            continue
+        n_tests += 1
+        # (c) polarity: with a failed verification every path must end in a rejection (boolean temporaries are followed)
+        bad = x_pipe.bool_flow(F, nxt, 0, fail)
+        if bad["ok"] is None and not bad["ret"]:
+            res.ok("polarity:%s" % fkey, "R-CDEP", "a failed %s always ends in an error return (%s)" % (what, where(F, bb)))
+        else:
+            at = where(F, bad["ok"][0]) if bad["ok"] else where(F, bb)
+            res.violation("polarity:%s" % fkey, "in %s a transaction can be accepted although %s returned false (accepting exit at %s): "
+                          "the error return is not control dependent on the failed verification" % (F.path, what, at), where=where(F, bb), rule="R-CDEP")
+        if F.kind == "Closure" and what == "verify_signature":
             # a closure that verifies and decides by itself (returns a Result / unit): it must be driven over every element
             par = P.fns.get(F.b.get("parent") or "")
             for abi, l, h, agg in (closure_aggs(par, P) if par is not None else []):
@@ -406,41 +462,37 @@ def analyse_era(res, P, M, era, spec):
                                   % (par.path, ".".join(chain)), where=where(par, fb), rule="R-FORALL")
                 else:
                     res.ok("forall:%s" % fkey, "R-FORALL", "verifying closure driven over every element by %s" % ".".join(chain))
-        if returned and F.kind == "Closure":
-            # predicate closure: its consumer in the parent carries the verdict
-            par = P.fns.get(F.b.get("parent") or "")
-            placed = False
-            if par is not None:
-                for abi, l, h, agg in closure_aggs(par, P):
-                    if h is not F:
-                        continue
-                    fb, chain = consumer_of(par, l)
-                    placed = True
-                    last = chain[-1] if chain else None
-                    early = [c for c in chain if c in EARLY_CONSUMERS]
-                    if fb is None:
-                        res.violation("forall:%s" % fkey, "the closure that verifies signatures in %s is never consumed" % par.path, where=where(par, abi), rule="R-LAZY")
-                    elif last in ALL_CONSUMERS and not early:
-                        res.ok("forall:%s" % fkey, "R-FORALL", "verifying closure consumed by %s" % ".".join(chain))
-                        work.append((par, fb, "%s(verify_signature)" % last, None))
+        # (b) no Ok from inside the loop on the verified side, unless this is a search for one key
+        lp = loop_of(F, bb, (wit,))
+        if lp is not None:
+            scc, heads = lp
+            good = x_pipe.bool_flow(F, nxt, 0, good_fact, avoid=heads)
+            if good["ok"] is not None:
+                guarded, same, txt = search_guard(F, bb, wit, P)
+                if guarded:
+                    res.ok("forall:%s" % fkey, "R-FORALL", "Ok inside the loop is the success of a search for one key hash (%s)" % txt)
+                    if same is True:
+                        res.ok("own-key:%s" % fkey, "R-PROV", "the hash compared with the wanted key is the hash of the vkey of the witness that is verified")
+                    elif same is False:
+                        res.violation("own-key:%s" % fkey, "in %s the key hash compared with the wanted key is not the hash of the vkey of the witness whose signature is verified" % F.path,
+                                      where=where(F, bb), rule="R-PROV")
                     else:
-                        res.violation("forall:%s" % fkey, "in %s the closure that verifies signatures is consumed by %s, which stops at / skips elements: not every witness is verified"
-                                      % (par.path, ".".join(chain)), where=where(par, fb), rule="R-FORALL")
-            if not placed:
-                res.violation("verdict-unused:%s" % fkey, "cannot find where the verifying closure %s is used" % F.path, where=where(F, bb), rule="R-CDEP")
-        elif returned:
-            # a bool-returning wrapper function: its call sites carry the verdict
-            for G, bi, tt in callers(CF, F):
-                work.append((G, bi, "%s(verify_signature)" % F.name, G.sym_operand(tt["args"][0]) if tt["args"] else None))
+                        res.count("clauses not decided: own-key (hash test and verification not comparable)")
+                else:
+                    res.violation("forall:%s" % fkey, "%s returns Ok from inside the loop as soon as one witness verifies (exit at %s): the remaining vkey witnesses are "
+                                  "never checked, so a transaction carrying an invalid signature after a valid one is accepted" % (F.path, where(F, good["ok"][0])),
+                                  where=where(F, bb), rule="R-FORALL")
+            else:
+                res.ok("forall:%s" % fkey, "R-FORALL", "no Ok exit is reachable from the verified side without re-entering the loop head")
     # (c) flag writes in verifying functions: after a verification, and never on its failed side
     for fpath, lst in sites_of.items():
         F = lst[0][0]
         fkey = F.path.split("phase1::")[-1]
         for wb, wsi in flag_writes(F):
             ok = False
-            for _, bb, d in lst:
+            for _, bb, fail in lst:
                 nxt = F.blocks[bb]["term"].get("t")
-                if bb in F.dominators().get(wb, ()) and bb != wb and (wb, wsi) not in x_pipe.bool_flow(F, nxt, 0, {d: False})["positions"]:
+                if bb in F.dominators().get(wb, ()) and bb != wb and (wb, wsi) not in x_pipe.bool_flow(F, nxt, 0, fail)["positions"]:
                     ok = True
             k = "covered-flag:%s" % fkey
             if ok:
@@ -536,7 +588,7 @@ def run(tier):
         res.floor("vkey-input-witness rule:%s" % era, len(Ws), 1)
         for W in Ws:
             n_w += 1
-            x_wit.check_inputs_consumed(res, P, W, era, has_coll)
+            x_wit.check_inputs_consumed(res, P, W, era, has_coll, CF)
             n_var += x_wit.check_output_variants(res, P, W, era, spec.get("utxo_output_variants", []), accessors)
     res.floor("witness error variants judged", judged, 8)
     res.floor("verify_signature call sites", n, 6)
